@@ -80,6 +80,7 @@ def items(tier):
     for dim in b["shape_dims"]:
         out.append(dict(kind="shape", id="shape-%dd" % dim, dim=dim))
         out.append(dict(kind="shape", id="shape-%dd-integer-sizes" % dim, dim=dim, int_sizes=True))
+        out.append(dict(kind="shape", id="shape-%dd-derivative-first" % dim, dim=dim, der_first=True))
     return out
 
 
@@ -276,6 +277,13 @@ def sc_tables(V, P, cfg):
                 for q in range(ndof):
                     ref[e, l * ndof + q] = conn_ref[e, l] * ndof + q
         K.table("dofconn-ndof%d" % ndof, dofconns[ndof], ref, "dofconn-table")
+    # a table handed out belongs to the caller: offsetting it in place (temperature dofs behind displacement dofs) must not
+    # change the domain's own connectivity nor what the next call returns
+    mine = d.get_dofconnectivity(1)
+    if isinstance(mine, np.ndarray) and mine.size:
+        mine += 1000
+        K.table("conn-after-the-caller-modified-a-returned-table", d.conn, conn_ref, "conn-table")
+        K.table("dofconn-ndof1-after-the-caller-modified-a-returned-table", d.get_dofconnectivity(1), conn_ref, "dofconn-table")
     # index arrays of any rank ("can be integer or array"): 1-D lists of elements and meshgrid-style selections; the result
     # has the shape of the index arrays plus one axis for the element's nodes
     ar = [np.arange(c) for c in cnt]
@@ -364,8 +372,15 @@ def sc_shape(V, P, cfg):
         x.append(xa)
     pos = np.array(x, dtype=object if V.symbolic else float)
     n_def = len(V.c.defined) if V.symbolic else 0
-    N = d.eval_shape_fun(pos)
-    dN = d.eval_shape_fun_der(pos)
+    pos_given = np.array(pos, dtype=pos.dtype, copy=True)
+    if cfg.get("der_first"):
+        dN = d.eval_shape_fun_der(pos)      # the caller's point array is used for both calls, derivative first
+        N = d.eval_shape_fun(pos)
+    else:
+        N = d.eval_shape_fun(pos)
+        dN = d.eval_shape_fun_der(pos)
+    K.holds("point-argument-unchanged", all((a_ is b_) or (not isinstance(a_, R) and a_ == b_) for a_, b_ in zip(pos, pos_given))
+            if V.symbolic else bool(np.all(pos == pos_given)), "arguments")
     # a second evaluation at another point of the element while the first results are still in use (integration loops keep
     # several evaluations): every clause below is about the FIRST results and is evaluated after the second call
     xb = []
